@@ -11,11 +11,17 @@
      C10_lexer        the lexer turns the escaper's text for every one of the 65536 units, between
                       two neighbouring characters, into exactly the tokens of C10_roundtrip's stream
                       (finite: all units, by computation — the bound is in the statement).
-   Not proved: lex (escape s) = canon (escape_tokens s) for arbitrary s (the lexer's compositionality);
-   it is what the strict token correspondence and the exhaustive 1.1M code-point sweep of the thorough
-   tier exercise against the implementation. *)
+     C10_chars        the CHARACTER-level statement (Proofs/LexProofs.v): for EVERY string s of Unicode scalar
+                      values whose 7-bit characters are not \ { } CR LF, decode_tokens (lex (escape s)) = s -
+                      the escaper's text, read back through the lexer and the decoder, is the string; and
+                      lex (escape s) is exactly the token list lt s [] (the lexer's compositionality: one step
+                      per plain character, three per escaped unit, the decimal parameter of all 65536 units
+                      parsed back by computation);
+     C10_text_tokens  hence a run body with conversion off decodes to its text.
+   The implementation side is exercised by the strict token correspondence and the exhaustive 1.1M code-point
+   sweep of the thorough tier. *)
 From Coq Require Import List NArith ZArith Bool Arith Lia.
-From V Require Import Str Tok Decode WellFormed TextConv EscapeProofs.
+From V Require Import Str Tok Decode WellFormed TextConv EscapeProofs LexProofs.
 Import ListNotations.
 Local Open Scope N_scope.
 
@@ -38,6 +44,20 @@ Qed.
 
 Theorem C10_lexer : forall u, u < 65536 -> unit_lex_ok u = true.
 Proof. exact unit_lex. Qed.
+
+Theorem C10_chars : forall s, Forall scalar s -> clean s ->
+  decode_tokens (lex (escape s)) = s /\ lex (escape s) = lt s [].
+Proof. intros s H1 H2. split; [apply lex_roundtrip; assumption|apply lex_escape; assumption]. Qed.
+Print Assumptions C10_chars.
+
+Theorem C10_text_tokens : forall s, Forall scalar s -> clean s -> decode_tokens (text_tokens false s) = s.
+Proof. intros s H1 H2. exact (lex_roundtrip s H1 H2). Qed.
+
+(* non-vacuity: a string with Latin-1, a BMP and an astral character between plain text *)
+Example C10_chars_example :
+  let s := [97; 233; 32; 8364; 98; 128512; 99] in
+  decode_tokens (lex (escape s)) = s /\ length (lex (escape s)) = 13%nat.
+Proof. vm_compute. split; reflexivity. Qed.
 Print Assumptions C10_lexer.
 
 (* non-vacuity: a string mixing ASCII, Latin-1, BMP and astral characters *)
